@@ -177,6 +177,17 @@ def main(prop, argv):
     if bad:
         broken.append('gate: forbidden vernacular: ' + '; '.join(bad[:5]))
     ok, n_thm, blocks, bad_ax, out = core.coq_props(pid)
+    # the model files the correspondence evaluates (imports of the cases files) must be built as well
+    import re as _re
+    mods = []
+    for m in _re.finditer(r'From Xr Require Import ([^\n]*)\.\s*(?:\n|$)', prop.imports):
+        mods += m.group(1).split()
+    mod_targets = sorted({x.replace('.', '/') + '.vo' for x in mods})
+    if mod_targets:
+        okm, outm = core.coq_make(mod_targets)
+        if not okm:
+            ok = False
+            out = outm
     obligations = n_thm
     discharged = n_thm if ok else 0
     if not ok:
